@@ -425,7 +425,10 @@ def run(an: Analysis, rep):
                         conv_fn = r_[1]
                 elif isinstance(conv, ast.Lambda):
                     conv_fn = conv
-                conv_ok = conv is None or (conv_fn is None and (attr_chain(conv) or "").split(".")[-1] in ("Path", "PurePath", "str", "PosixPath"))
+                conv_name = (attr_chain(conv) or "").split(".")[-1] if conv is not None else None
+                conv_ok = conv is None or (conv_fn is None and conv_name in ("Path", "PurePath", "str", "PosixPath"))
+                # pathlib normalises what it is given: a leading `./` is dropped, `a//b` and `a/./b` become `a/b` - str(Path(x)) is not x
+                path_conv = conv_fn is None and conv_name in ("Path", "PurePath", "PosixPath")
                 rw2 = []
                 if conv_fn is not None:
                     body = conv_fn.node if hasattr(conv_fn, "node") else conv_fn
@@ -435,7 +438,13 @@ def run(an: Analysis, rep):
                 elif not conv_ok:
                     raise AnalysisError(f"{fn.qual}: the positional argument is converted by `{norm_src(conv)}`: not a plain path / str constructor, effect on the file name not decided")
                 bad_ = rw or rw2
-                rep.add("R16.6", f"{fn.qual}::the file is compiled under the path given on the command line", not bad_, loc(m, bad_[0]) if bad_ else loc(m, comp[0]),
+                if not bad_ and path_conv:
+                    rep.add("R16.6", f"{fn.qual}::the file is compiled under the path given on the command line", False, loc(m, opts["file"]["node"]),
+                            f"the positional argument is converted with `type={norm_src(conv)}` and compiled under `{norm_src(fnarg)}`: pathlib normalises the text (`./pkg/prog.py`, `pkg//prog.py`, "
+                            f"`pkg/./prog.py` all become `pkg/prog.py`), so the `filename` of every printed CodeData is not the path that was typed - `python ./pkg/prog.py` itself records './pkg/prog.py', "
+                            f"and so does CodeData.from_code(compile(source, './pkg/prog.py', 'exec'))")
+                else:
+                  rep.add("R16.6", f"{fn.qual}::the file is compiled under the path given on the command line", not bad_, loc(m, bad_[0]) if bad_ else loc(m, comp[0]),
                         f"compile() records `{norm_src(fnarg)}` and the argument is converted by `{norm_src(conv) if conv is not None else 'nothing'}`: the filename of every code object is the path as typed" if not bad_ else
                         f"the path of the program is rewritten by `.{bad_[0].attr}` before compile() records it: `python-code-data prog.py` prints CodeData whose `filename` (of every nested "
                         f"code object too) is not 'prog.py' - not what CodeData.from_code(compile(source, 'prog.py', 'exec')) gives for the same program")
@@ -444,6 +453,52 @@ def run(an: Analysis, rep):
             node = node.orelse[0]
         else:
             break
+    # ---- R16.5 (cont.) the program text is decoded a second time (for --source) only when it is asked for: tokenize.open() / get_source() are stricter than the
+    #      compiler (a stray non-UTF-8 byte in a comment, a byte on the coding line itself), so reading it unconditionally makes a program that python runs exit 1
+    show_names = {k for k, v in umap.items() if v == "source"}
+    node = chain
+    i = 0
+    while True:
+        d = ddests[i]
+        if d in ("file", "m"):
+            for c in [c for b in node.body for c in ast.walk(b) if isinstance(c, ast.Call)]:
+                nm = attr_chain(c.func) or ""
+                textual = nm in ("tokenize.open",) or nm.endswith(".get_source") or nm.endswith(".read_text") or (nm == "open" and not any(
+                    isinstance(a, ast.Constant) and isinstance(a.value, str) and "b" in a.value for a in list(c.args[1:]) + [k.value for k in c.keywords]))
+                if not textual:
+                    continue
+                from .encode_model import guards_of as _go
+                gs = _go(m, fn, c)
+                guarded = any(pos and any(isinstance(x, ast.Name) and x.id in show_names for x in ast.walk(t)) for t, pos in gs)
+                # ... or wrapped in a try that swallows decoding errors
+                pm_ = {id(ch): par for par in ast.walk(fn.node) for ch in ast.iter_child_nodes(par)}
+                cur = c
+                in_try = False
+                while id(cur) in pm_:
+                    cur = pm_[id(cur)]
+                    if isinstance(cur, ast.Try) and cur.handlers:
+                        in_try = True
+                rep.add("R16.5", f"{fn.qual}::option {d}: `{nm}` only runs when the source is shown", guarded or in_try, loc(m, c),
+                        "the text is only decoded for --source" if guarded or in_try else
+                        f"the arm for `{d}` calls `{norm_src(c)[:50]}` whether or not --source was given: decoding the text is stricter than compiling the bytes (`# coding: utf-8` with a stray latin-1 byte in a "
+                        f"comment; a module with a non-UTF-8 byte in a comment) - `python prog.py` runs such a program, the command exits 1 with UnicodeDecodeError / SyntaxError and prints nothing")
+        i += 1
+        if len(node.orelse) == 1 and isinstance(node.orelse[0], ast.If):
+            node = node.orelse[0]
+        else:
+            break
+    # ---- R16.1 (cont.) a value that starts with '-' is a value: `-c "-1+2"` is one program
+    for d_ in sources:
+        o = opts[d_]
+        if o["positional"]:
+            continue
+        kwn = {k.arg: k.value for k in o["node"].keywords}
+        takes_any = "nargs" in kwn or ("action" in kwn and not (isinstance(kwn["action"], ast.Constant) and kwn["action"].value in ("store",)))
+        if d_ in ("c", "e"):
+            rep.add("R16.1", f"{fn.qual}::option {o['flags'][0]} accepts program text that starts with '-'", takes_any, loc(m, o["node"]),
+                    "the option is declared with its own action / nargs" if takes_any else
+                    f"`{norm_src(o['node'])[:60]}` is a plain argparse option: argparse takes a value that starts with '-' for another option, so `{o['flags'][0]} \"-1+2\"` (also `-x`, `-(1)`) "
+                    f"exits 2 with 'expected one argument' although exactly one source, a valid program, was given (`python -c \"-1+2\"` runs it)")
     # ---- R16.1 (cont.) a source option given twice is "more than one source"
     for d_ in sources:
         o = opts[d_]
